@@ -94,6 +94,35 @@ mut("c05_signal_wakes_two", "C05", "include/abti_waitlist.h",
         }
     }
 }""", "cond signal wakes two ULT waiters when three or more are queued")
+mut("c07_pop_gives_up_when_lock_busy", "C07", "pool/thread_queue.h",
+    """    while (ABTD_spinlock_try_acquire(p_lock)) {
+        /* Lock acquisition failed.  Check the size. */
+        while (1) {""",
+    """    while (ABTD_spinlock_try_acquire(p_lock)) {
+        /* Lock acquisition failed.  Check the size. */
+        return 1; /* mutant: report empty instead of waiting for the lock */
+        while (1) {""", "pop reports an empty pool when the pool lock is busy")
+mut("c07_randws_pop_many_tail_order", "C07", "pool/randws.c",
+    None, None, "placeholder")
+mut("c07_fifo_pop_many_stops_early", "C07", "pool/fifo.c",
+    """        for (i = 0; i < max_threads; i++) {
+            ABTI_thread *p_thread = thread_queue_pop_head(&p_data->queue);
+            if (!p_thread)
+                break;
+            threads[i] = ABTI_thread_get_handle(p_thread);
+        }
+        *num_popped = i;
+        ABTD_spinlock_release(&p_data->mutex);""",
+    """        for (i = 0; i < max_threads && i < 2; i++) {
+            ABTI_thread *p_thread = thread_queue_pop_head(&p_data->queue);
+            if (!p_thread)
+                break;
+            threads[i] = ABTI_thread_get_handle(p_thread);
+        }
+        *num_popped = i;
+        ABTD_spinlock_release(&p_data->mutex);""", "FIFO pop_many returns at most two units even if more were requested and present")
+mut("c07_fifo_wait_push_many_order", "C07", "pool/fifo_wait.c",
+    None, None, "placeholder")
 mut("c01_fifo_no_second_empty_check", "C01", "pool/thread_queue.h",
     None, None, "placeholder")
 mut("c03_join_no_final_wait", "C03", "thread.c",
